@@ -99,6 +99,17 @@ let () =
          | "P" -> top (TProg (a.(0), a.(1)))
          | "W" -> top (TDrain (a.(0), a.(1), a.(2)))
          | "S" -> top TObs
-         | _ -> ())
+         (* the source side, evaluated on the current state without changing it: is a wakeup needed (xw t canc); the state
+            after the first applicable action of _dispatch_source_invoke2 (xi t now canc) *)
+         | "xw" ->
+           let x = (!ts).s_timers a.(0) in
+           print_zs [if wake_needed x (int_of_z a.(1) <> 0) then z_of_int 1 else z_of_int 0]
+         | "xi" ->
+           let canc = int_of_z a.(2) <> 0 in
+           let xs = { x_st = !ts; x_canc = (fun _ -> canc); x_enq = (fun _ -> true) } in
+           let xs' = invoke_step xs a.(0) a.(1) in
+           print_zs ((if xs'.x_enq a.(0) then z_of_int 1 else z_of_int 0) :: obs_state xs'.x_st !nt)
+         | "" -> ()
+         | _ -> prerr_endline ("c11_driver: unknown command " ^ c); exit 3)
     done
   with End_of_file -> ()
